@@ -39,7 +39,7 @@ def a(self):
 @target(deps=[":a"], sources=["out/a.txt", "dir"], generates=["out/b.txt"])
 def b(self):
     v.body("//:b", [D, len([1])], ["out/a.txt", "dir"], "out/b.txt")
-@target(deps=[":a", ":b"])
+@target(deps=[":a", ":b"], default=True)
 def all(self):
     v.body("//:all", [0], ["out/a.txt", "out/b.txt"], "")
 `
@@ -58,7 +58,7 @@ func c15Base(scratch string) (string, error) {
 	os.MkdirAll(filepath.Join(s.Root, "dir"), 0o755)
 	os.WriteFile(filepath.Join(s.Root, "dir", "x.txt"), []byte("x\n"), 0o644)
 	for i := 0; i < 2; i++ {
-		res := pj.Build(pj.BuildReq{Root: s.Root, Target: "//:all"})
+		res := pj.Build(pj.BuildReq{Root: s.Root, Target: "//:default"})
 		if res.LoadErr != "" || res.RunErr != "" {
 			return "", fmt.Errorf("base build: %s%s", res.LoadErr, res.RunErr)
 		}
@@ -384,8 +384,15 @@ func c15RecCase(c *core.Ctx, id string) {
 	}
 	os.WriteFile(path, corrupted, 0o644)
 	from := s.LogLen()
-	res := pj.Build(pj.BuildReq{Root: s.Root, Target: "//:all", PreferIndex: preferIndex})
+	res := pj.Build(pj.BuildReq{Root: s.Root, Target: "//:default", PreferIndex: preferIndex})
+	// "executed" = dawn evaluated the target again (the default target's body is a builtin that
+	// writes no log line, so the evaluating events are used; the log is a cross-check)
 	executed := map[string]bool{}
+	for _, ev := range res.Events {
+		if ev.Kind == "TargetEvaluating" {
+			executed[ev.Label] = true
+		}
+	}
 	for _, le := range s.ReadLog(from) {
 		if le.Kind == "S" {
 			executed[le.Label] = true
